@@ -368,6 +368,11 @@ def run(index: RepoIndex, rep) -> None:
     rep.rule('C13.R6', 'row and column quantities are not exchanged in the reset functions and the drawing helpers (axis typing, E14)', floor=1)
     from ..axes import axis_rule
     axis_rule(index, rep, 'C13.R6', ('gym_gridverse/envs/reset_functions.py', 'gym_gridverse/design.py'), floor=50)
+    rep.rule('C13.R8', 'a reset function obtained by name receives exactly the parameters it '
+             'was configured with (zero and the empty set included), so its own checks decide '
+             'what is refused (C17.R4)', floor=10)
+    from .c17 import factory_rules
+    factory_rules(index, rep, 'C13.R8')
     rep.rule('C13.R1', 'error discipline: every raise is ValueError; parameters are not '
              'validated by assert', floor=14)
     rep.rule('C13.R2', 'draws of several cells/colours/columns are without replacement', floor=6)
